@@ -114,6 +114,10 @@ class E1Prop(Prop):
             res.lines.append('ok')
             for i, op in enumerate(c['ops']):
                 n_sql = len(w.sql_errors)
+                if not obs.realistic(op):
+                    res.cut = i
+                    res.tags.append('cut:unrealistic-' + op.split()[0])
+                    break
                 obs.before(op)
                 ans = w.apply(op)
                 res.lines.append(ans)
